@@ -820,6 +820,12 @@ def compare_life(sc, pred, obs, eps=None):
             for (tw, c), (tg, _) in zip(want, got):
                 if abs(tw - tg) > eps + 0.05 * tw:
                     bad.append(f"attempt {k}: signal {c} at {tg:.0f} ms, model {tw} ms")
+    if not any(n in SHUT for _, n in sc["sigs"]):
+        # (after a kill that ends a signal-termination "interval elapsed" and "child exited" race: see compare)
+        want_slow = [(k, c == 101) for _, k, c in pred["trace"] if c in (100, 101)]
+        got_slow = [(k, w) for k, _, w in obs["slow_events"]]
+        if want_slow != got_slow:
+            bad.append(f"slow events (attempt, will_terminate): nextest {obs['slow_events']}, model {want_slow}")
     want_info = [INFO_STATE[c] for _, _, c in pred["trace"] if c in INFO_STATE]
     got_info = [r["state"] for g in obs["info_groups"] for r in g["responses"]]
     if want_info != got_info:
@@ -938,7 +944,7 @@ def oracle_life(sc, obs):
             r = rep.get(k)
             deaths.append(r["reported_t"] if r else (pe[0] if pe else cancel_t))
         last = max(deaths + [cancel_t] + ([obs["canceller_end"]] if obs.get("canceller_end") else []))
-        if not stops and obs["nextest_exit_t"] > last + 2.5 * eps + 150:
+        if all(b <= cancel_t for _, b in stops) and obs["nextest_exit_t"] > last + 2.5 * eps + 150:
             return (f"cancellation began at {cancel_t:.0f} ms, every process had ended by {last:.0f} ms, nextest exited "
                     f"only at {obs['nextest_exit_t']:.0f} ms (retry delay {life_delay_units(sc, 1) * u:.0f} ms)")
         if obs["rc"] == 0:
@@ -1060,6 +1066,9 @@ def life_stop_in_delay(r=None):
                      sigs=[(7.5, "TSTP"), (11.5, "CONT")]),
            # stop during attempt 1 (which then fails), continue, then the delay
            life_base(family="stop-then-delay", attempts=[_att(2.5, 1), _att(1.5, 0)], sigs=[(1.5, "TSTP"), (5.5, "CONT")]),
+           # stop during attempt 2: its own fresh stopwatch and slow-timeout interval are paused (slow events shift)
+           life_base(family="stop-in-attempt-2", period=2, delay=2, retries=1, attempts=[_att(1.5, 1), _att(5.0, 0)],
+                     sigs=[(4.5, "TSTP"), (7.5, "CONT")]),
            # the test ignores SIGTSTP and fails while nextest is stopped: the delay starts at the continue
            life_base(family="exit-while-stopped", delay=4, attempts=[_att(2.5, 1, stops=False), _att(1.5, 0)],
                      sigs=[(1.5, "TSTP"), (6.5, "CONT")])]
